@@ -775,6 +775,11 @@ func (r *rewriter) goStmt(s *ast.GoStmt) []ast.Stmt {
 	}
 	// typed form: evaluate function value and arguments at the go statement
 	typed := func() *ast.GoStmt {
+		if fid, ok := s.Call.Fun.(*ast.Ident); ok {
+			if _, builtin := r.pkg.info.Uses[fid].(*types.Builtin); builtin {
+				return nil // go close(ch), go panic(x) ...: built-ins are not values
+			}
+		}
 		ft := r.typeOf(s.Call.Fun)
 		sig, ok := ft.(*types.Signature)
 		if !ok || sig.Variadic() || s.Call.Ellipsis != token.NoPos || sig.Params().Len() != len(s.Call.Args) {
@@ -818,7 +823,7 @@ func (r *rewriter) goStmt(s *ast.GoStmt) []ast.Stmt {
 	}
 	// fallback: closure form (arguments evaluated in the new goroutine)
 	r.skip("go statement: closure form used (arguments evaluated late)", s.Pos())
-	body := append(prologue, &ast.ExprStmt{X: s.Call})
+	body := append(prologue, r.stmt(&ast.ExprStmt{X: s.Call})...)
 	g := &ast.GoStmt{Call: &ast.CallExpr{Fun: &ast.FuncLit{Type: &ast.FuncType{Params: &ast.FieldList{}}, Body: &ast.BlockStmt{List: body}}}}
 	return []ast.Stmt{spawn, g}
 }
